@@ -7,6 +7,15 @@ import importlib
 
 CLAIMED = {
  # id: (technique, level_note, design_ref)
+ 'C10': ('override resolution along the statically computed MRO + DIRTY/SYNCED typestate walk (path walker, parameter defaults / literal call arguments, memoised summaries) + table checks on updatemeta',
+         'Decides: every public file-returning operation resolved for receiver ioapi_base returns after updatemeta() on all paths; copy contract; the four encodings of '
+         'the variable count are each reconciled under a test of themselves; count attributes set from dimensions; level-edge guard is a tautology. Operations still '
+         'inheriting the IOAPI-unaware base definition are reported (2 recorded as known findings). Not decided: that updatemeta computes right values (e.g. SDATE after '
+         'a time reduction). Trusted: frozen BASE_OK table with reasons.', '4/C10'),
+ 'C11': ('ast slot-consistency template for the origin updates, exhaustive per-dimension handler table, size algebra on the level-edge guard, source-of-times check',
+         'Decides for ioapi_base.sliceDimensions: handlers for COL/ROW/LAY/TSTEP store the named attributes before updatemeta; each horizontal handler uses only its own axis names '
+         'and the source length; the VGLVLS guard holds for every layer window; start date/time come from the source decoded times. Not decided: numeric agreement of '
+         'coordinates, edges and times for every window.', '4/C11'),
  'C06': ('ast table/dispatch checks: exhaustive operator and predicate tables, must-pass-through of masked_invalid, mask-dropping-conversion lint on the value paths, result-dtype source',
          'Decides the dispatch structure for all 16 operators and 8 mask predicates, masked_invalid on the value path, no mask-dropping conversion '
          'between computation and store (pncbo, eval), result dtype from the computed value, coordinate pass-through. Not decided: elementwise values, '
